@@ -90,7 +90,7 @@ Proof.
     { unfold ClockInv in *. destruct Q as (_ & _ & Q3 & _ & Q5). lia. }
     pose proof (IH s1 CI1) as H. destruct (lrun s1 os beh). exact H. }
   destruct o; cbn [lrun];
-    try (destruct (lapi s _) as [s1 e1] eqn:E; exact (Hgen s1 e1 E)).
+    try (destruct (lapi s _) as [s1 e1]; exact (Hgen s1 e1 eq_refl)).
   - pose proof (uv_run_time beh run_fuel s mode CI) as (A & _).
     destruct (uv_run run_fuel s beh mode) as [s1 e1]. cbn [fst] in A.
     pose proof (IH s1 A) as H. destruct (lrun s1 os beh). exact H.
